@@ -8,13 +8,13 @@ package an
 // 36*cnt stays opaque and nothing guarded through it counts as guarded.
 
 import (
-	"regexp"
 	"fmt"
 	"go/constant"
 	"go/token"
 	"go/types"
 	"math/big"
 	"os"
+	"regexp"
 	"runtime/debug"
 	"sort"
 	"strings"
